@@ -288,10 +288,12 @@ class Driven:
             p.t.block()
         elif ev == "unblock":
             p.t.unblock()
-        elif ev == "killq":
-            await self.ctl.kill(p.greeting["cid"], KillKind.QUERY)
-        elif ev == "killc":
-            await self.ctl.kill(p.greeting["cid"], KillKind.CONNECTION)
+        elif ev in ("killq", "killc"):
+            # request only: the target task has not run yet when this returns (no settling)
+            await self.ctl.kill(p.greeting["cid"], KillKind.QUERY if ev == "killq" else KillKind.CONNECTION)
+            return self.report([])
+        elif ev == "deliver":
+            pass
         elif ev == "eof":
             if not p.t.closed:
                 p.t.feed_eof()
